@@ -30,18 +30,19 @@ def run(ck):
     import checks.layout_common as lc
     lcases = lc.run_layout_mc(ck, sizing_only=True)
     # ... and bound to the code: allocated size and every index of the enumerated extents on the real layers
-    bins = lc.layout_binaries(ck, ["asan"])
+    bins = lc.layout_binaries(ck, ["asan", "rel"])
     for b in bins.get("asan", []):
         rc, out, err = ck.run([b, "replay", lcases], timeout=1500)
         s = ck.harness_output("sizing-replay-" + b[-2:], rc, out, err)
         ck.cov["cases_replayed"] += s.get("cases", 0)
         ck.cov["impl_checks"] += s.get("checks", 0)
-    if bins.get("asan"):
-        tr = ck.path("sizing-trace.ndjson")
-        rc, out, err = ck.run([bins["asan"][0], "trace", str(ck.seed), "100" if ck.quick else "500", "1", "0", tr], timeout=900)
-        s = ck.harness_output("sizing-trace", rc, out, err)
-        if rc == 0:
-            ck.validate_trace("Trace_Layout", "Trace_Layout.cfg", tr, "sizing/trace", n_traces=1, n_events=s.get("events", 0))
+    for fl in ("asan", "rel"):          # the allocation law with assertions and sanitizers, and in the -O2 -DNDEBUG build
+        if bins.get(fl):
+            tr = ck.path("sizing-trace-%s.ndjson" % fl)
+            rc, out, err = ck.run([bins[fl][0], "trace", str(ck.seed), "100" if ck.quick else "500", "1", "0", tr], timeout=900)
+            s = ck.harness_output("sizing-trace-" + fl, rc, out, err)
+            if rc == 0:
+                ck.validate_trace("Trace_Layout", "Trace_Layout.cfg", tr, "sizing/trace-" + fl, n_traces=1, n_events=s.get("events", 0))
     c8 = vf.read_ndjson(files[0])
     ck.sample({"ipow_row": {"w": 8, "base": c8[4]["base"], "exps": c8[4]["exps"][:8], "pows": c8[4]["pows"][:8]}})
     for fl in (["asan"] if ck.quick else ["asan", "rel"]):
